@@ -7,7 +7,7 @@ import time, json
 from .. import common as C
 
 PROP = 'C14'
-BOUNDS = {'quick': dict(posonly=2, args=3, kwonly=3), 'thorough': dict(posonly=3, args=4, kwonly=5)}
+BOUNDS = {'quick': dict(posonly=2, args=3, kwonly=3), 'thorough': dict(posonly=4, args=4, kwonly=6)}
 
 
 def run(tier, seed):
